@@ -197,7 +197,6 @@ func execHTTP(state string, req *http.Request) []string {
 
 // effect summarises the difference of two canonical dumps (see the package comment).
 func effect(before, after []string) string {
-	type rec struct{ sv, pi map[string]int }
 	index := func(lines []string) (sv map[string]string, pi map[string]int, other map[string]int) {
 		sv, pi, other = map[string]string{}, map[string]int{}, map[string]int{}
 		for _, l := range lines {
@@ -455,7 +454,7 @@ func randBody(rng *rand.Rand) string {
 func gen(rng *rand.Rand, tier core.Tier, emit core.Emit) {
 	scale := 1
 	if tier == core.Thorough {
-		scale = 12
+		scale = 40
 	}
 	// 1. every boundary address × edge ports, absent and planted
 	for _, ip := range boundaryIPs {
